@@ -94,8 +94,8 @@ Definition known_class (c : case) : Z :=
   match c with
   | CArith e _ _ => arith_class e
   | CNum f args _ _ => nfn_class f args
-  | CStr f args _ _ => sfn_class f args
-  | CDate f args _ _ => dfn_class f args
+  | CStr _ _ _ _ => 0
+  | CDate _ _ _ _ => 0
   | CCast _ _ _ => 0
   | CFlt _ _ _ => 0
   end.
